@@ -66,10 +66,13 @@ def versions_stage(ctx):
 def run(ctx):
     q = ctx.tier == "quick"
     c05.pinned_selftests(ctx, "EBB3Link_c15.cfg", [("FixConnect", "ConnectFalseRecords", "connect() leaves the port open on unsupported firmware: the second connect() returns True")])
+    c05.pinned_selftests(ctx, "EBB3Link_c15r.cfg", [("FixStale", "ProbeOnly", "a version cached from an earlier board lets a version-less device pass the gate after a replug")])
     ctx.run_tlc("e1.connect", "EBB3LinkMC", "EBB3Link_c15.cfg" if q else "EBB3Link_c15_deep.cfg", coverage=q)
+    ctx.run_tlc("e1.replug", "EBB3LinkMC", "EBB3Link_c15r.cfg")        # the environment swaps the device between connects
     versions_stage(ctx)
-    c05.g_scripts(ctx, FOCUS, "gen_connect", "EBB3Link_gen15.cfg", 3, False, every=2 if q else 1)
-    c05.v_histories(ctx, FOCUS, 150 if q else 4000, 12, 0.08, 15, devs=ALL_DEVS, start_connected=False,
+    c05.g_scripts(ctx, FOCUS, "gen_connect", "EBB3Link_gen15.cfg", 3, False, every=6 if q else 1)
+    c05.g_scripts(ctx, FOCUS, "gen_replug", "EBB3Link_gen15r.cfg", 3, False, every=5 if q else 1)      # the device is swapped between connects
+    c05.v_histories(ctx, FOCUS, 90 if q else 4000, 12, 0.08, 15, devs=ALL_DEVS, start_connected=False,
                     alphabet=["connect", "connect", "connect", "disconnect"] + L.ALL_METHODS)
     ctx.exhaustive = True
     ctx.trusted += ["TLC 1.8", "harness/ebb3lib.py ScriptedPort device kinds and the stubbed serial.Serial / comports", "ebbfake.LegacyOKPort", "vlib parser"]
